@@ -278,9 +278,13 @@ def _check_cond(ctx, repo):
         return
     t = next(t1 for t1, p1 in inner1 for t2, p2 in inner2 if t1 is t2 and p1 != p2)
     pol1 = next(p1 for t1, p1 in inner1 if t1 is t)
-    ctx.ob("C03-R4", f.fq, "the then-branch is the arm taken when the truth value holds", pol1 is True, node=e1[0], construct="then-branch on true")
     # the truth value derives from the value of x[0] only
     te = resolve_single_assign(t, _armfn(arm, f), depth=3) if isinstance(t, ast.Name) else t
+    # the deciding test may be spelled as Klong truth (`not (zero or empty)`) or as falsity (`zero or empty`): the then-branch sits on the true side
+    kind = _truth_kind(te)
+    want = {"T": True, "F": False}.get(kind)
+    ctx.ob("C03-R4", f.fq, "the then-branch is the arm taken when the truth value holds", want is not None and pol1 is want, node=e1[0], construct="then-branch on true",
+           msg=f"the deciding test `{src(te)[:80]}` is {'Klong truth' if kind == 'T' else 'Klong falsity' if kind == 'F' else 'not recognised as truth/falsity of the test value'} and the then-branch is evaluated when it is {pol1}")
     qnames = set()
     st0 = e0[0]._parent
     if isinstance(st0, ast.Assign) and isinstance(st0.targets[0], ast.Name):
@@ -293,6 +297,33 @@ def _check_cond(ctx, repo):
     has_empty = any(isinstance(c, ast.Call) and callee_name(c) == "is_empty" for c in ast.walk(te))
     ctx.ob("C03-R4", f.fq, "truth tests both `== 0` and emptiness of the test value", has_zero and has_empty, node=t, construct="klong truth: 0 and empty are false",
            msg="the truth computation no longer treats both 0 and the empty list/string as false")
+
+
+def _truth_kind(e):
+    """'T' if e holds exactly when the tested value is Klong-true, 'F' if exactly when it is Klong-false (number 0 or empty);
+    partial results: 'Z' zero test, 'E' empty test, 'NZ'/'NE' their negations; None when not recognised"""
+    flip = {"F": "T", "T": "F", "Z": "NZ", "E": "NE", "NZ": "Z", "NE": "E"}
+    if isinstance(e, ast.UnaryOp) and isinstance(e.op, ast.Not):
+        return flip.get(_truth_kind(e.operand))
+    if isinstance(e, ast.Compare) and len(e.ops) == 1 and isinstance(e.comparators[0], ast.Constant) and e.comparators[0].value == 0:
+        return "Z" if isinstance(e.ops[0], ast.Eq) else "NZ" if isinstance(e.ops[0], ast.NotEq) else None
+    if isinstance(e, ast.Call) and callee_name(e) == "is_empty":
+        return "E"
+    if isinstance(e, ast.Call) and callee_name(e) in ("is_number", "is_integer", "is_float"):
+        return "num"
+    if isinstance(e, ast.BoolOp):
+        ks = [_truth_kind(v) for v in e.values]
+        if isinstance(e.op, ast.And):
+            if set(ks) <= {"num", "Z"} and "Z" in ks:
+                return "Z"             # is_number(q) and q == 0
+            if set(ks) <= {"NZ", "NE", "T"} and ("T" in ks or {"NZ", "NE"} <= set(ks)):
+                return "T"
+        else:
+            if set(ks) <= {"Z", "E", "F"} and ("F" in ks or {"Z", "E"} <= set(ks)):
+                return "F"
+            if set(ks) <= {"NZ", "nnum"} and "NZ" in ks:
+                return "NZ"
+    return None
 
 
 def _armfn(arm, f):
